@@ -23,7 +23,13 @@ func (p *Program) source(file string) []byte {
 // Loop footprint and havoc
 // ---------------------------------------------------------------------------------------------
 
+type footRoot struct {
+	node ast.Node
+	info *types.Info
+}
+
 type footprint struct {
+	roots    []footRoot
 	cells    map[*Cell]bool
 	reslice  map[*Cell]bool // true while every assignment seen is a self-reslice
 	targets  []modTarget
@@ -37,6 +43,7 @@ func (e *Exec) havocLoop(st *State, d loopDesc, spec *LoopSpec) {
 	}
 	// pass 1: assigned variables
 	for _, n := range d.foot {
+		fp.roots = append(fp.roots, footRoot{n, e.info()})
 		e.scanAssigned(st, n, fp, e.info())
 	}
 	// pass 2: heap / memory / ghost writes (roots evaluated at the loop head)
@@ -197,6 +204,23 @@ func (e *Exec) scanAssigned(st *State, n ast.Node, fp *footprint, info *types.In
 				}
 			}
 		case *ast.CallExpr:
+			// yield(v) of an inlined iterator runs the consumer's range body
+			if id, ok := ast.Unparen(a.Fun).(*ast.Ident); ok {
+				if yb, owner := e.yieldFor(info.Uses[id]); yb != nil {
+					fp.roots = append(fp.roots, footRoot{yb.rng.Body, owner.pkg.TypesInfo})
+					e.scanAssigned(st, yb.rng.Body, fp, owner.pkg.TypesInfo)
+					{
+						for _, kv := range []ast.Expr{yb.rng.Key, yb.rng.Value} {
+							if kid, ok := kv.(*ast.Ident); ok {
+								if c := e.objCell(owner.pkg.TypesInfo, kid); c != nil {
+									fp.cells[c] = true
+									fp.reslice[c] = false
+								}
+							}
+						}
+					}
+				}
+			}
 			// closures bound to locals are inlined: scan their bodies
 			if id, ok := ast.Unparen(a.Fun).(*ast.Ident); ok {
 				if v, ok := info.Uses[id].(*types.Var); ok {
@@ -500,6 +524,10 @@ func (e *Exec) scanCallWrites(st *State, call *ast.CallExpr, fp *footprint, info
 			}
 			return
 		}
+		if yb, owner := e.yieldFor(info.Uses[id]); yb != nil {
+			e.scanWrites(st, yb.rng.Body, fp, owner.pkg.TypesInfo)
+			return
+		}
 		// closure bound to a local
 		if v, ok := info.Uses[id].(*types.Var); ok {
 			if c, ok := e.cells[v]; ok {
@@ -562,6 +590,16 @@ func (e *Exec) scanCallWrites(st *State, call *ast.CallExpr, fp *footprint, info
 			}
 		}
 		if rv == nil {
+			if sel, ok := ast.Unparen(call.Fun).(*ast.SelectorExpr); ok {
+				if ptr, isPtr := r.Type().Underlying().(*types.Pointer); isPtr {
+					if arr, ok := e.resolveArrayRoot(st, sel.X, fp, info, 0); ok {
+						dv := dummy(types.Typ[types.Int], n).(Scalar)
+						rv = PtrVal{Loc: &MemLoc{Fam: memFamily(ptr.Elem()), Arr: arr, Idx: dv.T, Typ: ptr.Elem()}, Typ: r.Type()}
+					}
+				}
+			}
+		}
+		if rv == nil {
 			rv = dummy(r.Type(), n)
 		}
 		env.vars[n] = rv
@@ -578,6 +616,20 @@ func (e *Exec) scanCallWrites(st *State, call *ast.CallExpr, fp *footprint, info
 		if i < len(call.Args) && !(sig.Variadic() && i == sig.Params().Len()-1) {
 			if v, ok := e.evalAtHead(st, call.Args[i], fp, info); ok {
 				av = v
+			} else if arr, ok := e.resolveArrayRoot(st, call.Args[i], fp, info, 0); ok {
+				// only the backing array is known at the loop head
+				pt := sig.Params().At(i).Type()
+				switch reprOf(pt) {
+				case rSlice:
+					dv := dummy(pt, n).(SliceVal)
+					dv.Arr = arr
+					av = dv
+				case rRef:
+					if ptr, isPtr := pt.Underlying().(*types.Pointer); isPtr {
+						dv := dummy(types.Typ[types.Int], n).(Scalar)
+						av = PtrVal{Loc: &MemLoc{Fam: memFamily(ptr.Elem()), Arr: arr, Idx: dv.T, Typ: ptr.Elem()}, Typ: pt}
+					}
+				}
 			}
 		}
 		if av == nil {
@@ -697,4 +749,115 @@ func mentionsDummy(t *Term, dummies map[string]bool) bool {
 		}
 	}
 	return false
+}
+
+// yieldFor finds the yield binding (and the frame owning the range statement) for a yield parameter.
+func (e *Exec) yieldFor(obj types.Object) (*yieldBinding, *frame) {
+	if obj == nil {
+		return nil, nil
+	}
+	for i := len(e.frames) - 1; i >= 0; i-- {
+		if yb := e.frames[i].yield; yb != nil && yb.obj == obj {
+			return yb, e.frames[yb.frameIx]
+		}
+	}
+	return nil, nil
+}
+
+// resolveArrayRoot finds the backing array (at the loop head) that a slice or element-pointer
+// expression refers to, following reslices, &X[i], single definitions `p := &X[i]` inside the loop
+// and yield-bound range variables.
+func (e *Exec) resolveArrayRoot(st *State, x ast.Expr, fp *footprint, info *types.Info, depth int) (*Term, bool) {
+	if depth > 6 {
+		return nil, false
+	}
+	switch n := ast.Unparen(x).(type) {
+	case *ast.SliceExpr:
+		return e.resolveArrayRoot(st, n.X, fp, info, depth+1)
+	case *ast.UnaryExpr:
+		if n.Op == token.AND {
+			if ix, ok := ast.Unparen(n.X).(*ast.IndexExpr); ok {
+				return e.resolveArrayRoot(st, ix.X, fp, info, depth+1)
+			}
+		}
+		return nil, false
+	case *ast.SelectorExpr, *ast.IndexExpr:
+		if v, ok := e.evalAtHead(st, x, fp, info); ok {
+			if sv, ok := toSlice(v); ok {
+				return sv.Arr, true
+			}
+		}
+		return nil, false
+	case *ast.Ident:
+		c := e.objCell(info, n)
+		if c == nil {
+			return nil, false
+		}
+		if !fp.cells[c] || fp.reslice[c] {
+			if v, ok := st.store[c]; ok {
+				switch pv := v.(type) {
+				case SliceVal:
+					return pv.Arr, true
+				case ArrayVal:
+					return pv.Arr, true
+				case PtrVal:
+					if ml, ok := pv.Loc.(*MemLoc); ok {
+						return ml.Arr, true
+					}
+				}
+			}
+			return nil, false
+		}
+		obj := info.Uses[n]
+		if obj == nil {
+			obj = info.Defs[n]
+		}
+		// single definition inside the loop, or a yield-bound range variable
+		var found ast.Expr
+		var foundInfo *types.Info
+		count := 0
+		for _, r := range fp.roots {
+			ast.Inspect(r.node, func(m ast.Node) bool {
+				if as, ok := m.(*ast.AssignStmt); ok {
+					for i, l := range as.Lhs {
+						if id, ok := l.(*ast.Ident); ok && (r.info.Defs[id] == obj || r.info.Uses[id] == obj) {
+							count++
+							if len(as.Rhs) == len(as.Lhs) {
+								found, foundInfo = as.Rhs[i], r.info
+							}
+						}
+					}
+				}
+				return true
+			})
+		}
+		// yield-bound range variable
+		for i := len(e.frames) - 1; i >= 0; i-- {
+			yb := e.frames[i].yield
+			if yb == nil {
+				continue
+			}
+			owner := e.frames[yb.frameIx]
+			for k, kv := range []ast.Expr{yb.rng.Key, yb.rng.Value} {
+				if id, ok := kv.(*ast.Ident); ok && (owner.pkg.TypesInfo.Defs[id] == obj || owner.pkg.TypesInfo.Uses[id] == obj) {
+					// find yield(...) calls in the scanned producer body
+					for _, r := range fp.roots {
+						ast.Inspect(r.node, func(m ast.Node) bool {
+							if call, ok := m.(*ast.CallExpr); ok {
+								if fid, ok := ast.Unparen(call.Fun).(*ast.Ident); ok && r.info.Uses[fid] == yb.obj && k < len(call.Args) {
+									count++
+									found, foundInfo = call.Args[k], r.info
+								}
+							}
+							return true
+						})
+					}
+				}
+			}
+		}
+		if count == 1 && found != nil {
+			return e.resolveArrayRoot(st, found, fp, foundInfo, depth+1)
+		}
+	}
+	return nil, false
 }
